@@ -92,8 +92,10 @@ int vl_case (const char *fmt, ...)
 	else
 	{	if (case_idx < resume_from) return 0 ;
 		if (vl_opts.nshards > 1 && (case_idx % vl_opts.nshards) != vl_opts.shard) return 0 ;
-		if ((case_idx & 63) == 0 && vl_deadline_passed ())
-			vl_not_exhaustive ("global deadline reached during enumeration") ;
+		{	static long selected ;	/* cases this worker got as far as considering */
+			if ((++ selected & 31) == 0 && vl_deadline_passed ())
+				vl_not_exhaustive ("global deadline reached during enumeration") ;
+			}
 		if (sh->not_exhaustive && vl_opts.deadline > 0 && now_s () > vl_opts.deadline) return 0 ;
 		va_start (ap, fmt) ; vsnprintf (cur_spec_local, SPEC_LEN, fmt, ap) ; va_end (ap) ;
 		}
@@ -104,6 +106,17 @@ int vl_case (const char *fmt, ...)
 	if (replay_mode) printf ("CASE %s\n", cur_spec_local) ;
 	return 1 ;
 }
+
+/* vl_peek: would the next vl_case () execute its body? (always 1 when replaying: the spec has to be compared)
+** vl_skip: account for n cases that vl_peek said would not execute, without formatting their specs. */
+int vl_peek (void)
+{	long idx = case_idx + 1 ;
+	if (replay_mode) return 1 ;
+	if (idx < resume_from) return 0 ;
+	if (vl_opts.nshards > 1 && (idx % vl_opts.nshards) != vl_opts.shard) return 0 ;
+	return 1 ;
+}
+void vl_skip (long n) { case_idx += n ; }
 
 void vl_subcase (const char *fmt, ...)
 {	va_list ap ;
